@@ -12,7 +12,13 @@ for p in props:
     pid = p['id']
     path = os.path.join(HERE, 'lokiverif', 'props', pid.lower() + '.py')
     if not os.path.exists(path) or pid in na_reasons or pid not in READY:
-        na.append({'property_id': pid, 'reason': na_reasons.get(pid, 'check not built yet; planned in DESIGN.md section 3')})
+        if os.path.exists(path) and pid not in na_reasons:
+            reason = (f'not claimed yet: a draft check exists (lokiverif/props/{pid.lower()}.py, run with ./check {pid}) but on the unchanged '
+                      'tree it still reports failure signatures that have not been triaged into repository defect vs. oracle error '
+                      '(DESIGN.md section 9); it stays unregistered until it is quiet and sound')
+        else:
+            reason = na_reasons.get(pid, 'check not built yet; planned in DESIGN.md section 3')
+        na.append({'property_id': pid, 'reason': reason})
         continue
     src = open(path).read()
     ns = {}
